@@ -14,11 +14,17 @@ _base = [None]
 _hooked = [False]
 
 
+_by_thread = {}
+
+
 def _audit(ev, args):
     if ev == 'open' and _base[0] and isinstance(args[0], str):
-        p = os.path.abspath(args[0])
+        # a path handed to the OS with dot-dot segments still in it is resolved by the OS physically (through directory links)
+        p = os.path.realpath(args[0]) if '..' in args[0].split(os.sep) else os.path.abspath(args[0])
         if p.startswith(_base[0] + os.sep):
             _opened.append(p)
+            import threading
+            _by_thread.setdefault(threading.get_ident(), []).append(p)
 
 
 def s2l(s):
@@ -46,6 +52,12 @@ def run(chk):
     for f in files:
         with open(os.path.join(base, f), 'w') as fh:
             fh.write(f)
+    # a directory link inside the root that leads to a directory elsewhere (a shared assets folder)
+    os.makedirs(os.path.join(base, 'vault', 'pub'))
+    for f in ('vault/secret.txt', 'vault/pub/asset'):
+        with open(os.path.join(base, f), 'w') as fh:
+            fh.write(f)
+    os.symlink(os.path.join(base, 'vault', 'pub'), os.path.join(b, 'root', 'shared'))
     _base[0] = base
     if not _hooked[0]:
         sys.addaudithook(_audit)
@@ -88,6 +100,9 @@ def run(chk):
                  ('rel sub/..', 'sub/..', os.path.join(b, 'root')), ('rel ../..', '../..', os.path.join(b, 'root', 'sub', '..a')), ('rel ./', './', os.path.join(b, 'root', 'sub'))]
     rel_names = ['in', 'deep', 'sub/deep', '../top', '../in', '../../top', '../rootx/sib', '../../rootx/sib', '../../../secret', '..', '../sub/deep', 'x']
     jobs = []
+    for nm in ('shared/../secret.txt', 'shared/../../vault/secret.txt', 'shared/./../secret.txt', 'sub/../shared/../secret.txt', 'shared/../in', 'shared/..'):
+        for rt in roots[:3]:
+            jobs.append((nm, rt))
     for nm in meta_names:
         jobs.append((nm, meta_root))
     for rname, rroot, rcwd in rel_roots:
@@ -130,6 +145,36 @@ def run(chk):
                              'nameSegs': stripped.split('/'), 'files': [base.split('/')[1:] + f for f in file_segs],
                              'status': status, 'ims': ims is not None, 'rootNorm': s2l(root_abs), 'opened': [s2l(p) for p in opened], 'name': name, 'root': root})
                 chk.count(1, ('path', name, rname))
+    # two requests served concurrently by two threads (one for a file inside the root, one for a name outside it, or for another
+    # root): the second is served completely at a swept source line of the first
+    import threading
+    from harness.checks import lifelib as L
+    os.chdir(b)
+    lf = (os.path.join(core.REPO, 'ombott', 'static_stream'),)
+    acc16 = L.Accessors()      # (only its tracer is used here: every source line of static_stream is a pre-emption point)
+    root_a = os.path.join(b, 'root')
+    pairs = [(('in', root_a), ('../top', root_a)), (('sub/deep', root_a), ('../rootx/sib', root_a)), (('in', root_a), ('only2', os.path.join(base, 'b2', 'root')))]
+
+    def mk(name, root, box):
+        def go():
+            _by_thread.pop(threading.get_ident(), None)
+            st, hd, chunks, errs = sl.serve(name, root)
+            box.update(status=st, body=b''.join(chunks), opened=list(_by_thread.get(threading.get_ident(), [])))
+            return st
+        return go
+    for (na, ra), (nb, rb) in pairs:
+        box0 = {}
+        _, _, taken0 = L.run_threads([None, None], [mk(na, ra, box0), mk(nb, rb, {})], [0] * 5000, acc16, lf)
+        n0 = max(1, sum(1 for t in taken0 if t == 0))
+        for x in range(1, n0 + 1, 1 if thorough else max(1, n0 // 40)):
+            ba, bb = {}, {}
+            L.run_threads([None, None], [mk(na, ra, ba), mk(nb, rb, bb)], [0] * x + [1] * 5000 + [0] * 5000, acc16, lf)
+            for (nm, rt, bx) in ((na, ra, ba), (nb, rb, bb)):
+                root_abs = os.path.abspath(rt)
+                recs.append({'kind': 'path', 'rootSegs': rt.split('/')[1:], 'nameSegs': nm.strip('/\\').split('/'),
+                             'files': [base.split('/')[1:] + f for f in file_segs], 'status': bx.get('status', 0), 'ims': False,
+                             'rootNorm': s2l(root_abs), 'opened': [s2l(p) for p in bx.get('opened', [])], 'name': nm + ' (concurrent)', 'root': rt})
+                chk.count(1, ('concurrent', nm, rt, x))
     chk.sample({'name': recs[100]['name'], 'root': recs[100]['root'], 'status': recs[100]['status'], 'opened': [''.join(map(chr, o)) for o in recs[100]['opened']]})
     missing, fails = core.validate_records(chk, 'StaticTrace', recs, 'C16',
                                            strip=lambda t: {k: v for k, v in t.items() if k not in ('name', 'root')})
